@@ -21,7 +21,9 @@ def fold_family():
     return [{"id": "F0", "rules": {"Root": [P(0, "(?i)ks"), P(1, "(?s).")]}},
             {"id": "F1", "rules": {"Root": [P(0, "(?i)as"), P(1, "(?i)k"), P(2, "(?s).")]}},
             {"id": "F2", "rules": {"Root": [P(0, "(?i)sa+"), P(1, "[^a]")]}},
-            {"id": "F3", "rules": {"Root": [P(0, "(?i)\u2177"), P(1, "(?i)a\u2177"), P(2, "(?s).")]}}], list("awjfgWvV")
+            {"id": "F3", "rules": {"Root": [P(0, "(?i)\u2177"), P(1, "(?i)a\u2177"), P(2, "(?s).")]}},
+            {"id": "F4", "rules": {"Root": [P(0, "(?i:as)k|AS"), P(1, "(?s).")]}},
+            {"id": "F5", "rules": {"Root": [P(0, "AS|(?i:as)k"), P(1, "a"), P(2, "(?s).")]}}], list("awjfgWvVA")
 
 
 def unicode_family():
@@ -128,6 +130,9 @@ def curated():
     add({"Root": [named("_Under", "a"), named("9Nine", "b"), named("lower", "c"), rule("\\s+", True)]})
     add({"Root": [inc("S1")], "S1": [rule("a"), inc("S2"), rule("b")], "S2": [rule("c"), rule("\\(")]})
     add({"Root": [named("_U", "a+"), named("0Zero", "b"), named("Zed", "c"), named("Upper", "(?s).")]})      # no rule is elided: no byte may be dropped
+    # an ELIDED rule that can match the empty string, followed by a rule that would match: the empty match is still an error
+    add({"Root": [rule("a"), rule("\\s*", True), rule("b")]})
+    add({"Root": [rule("a", act="push", state="S1"), rule("c")], "S1": [rule("[ \\t]*", True), rule("b", act="pop")]})
     # a pattern that starts with ^ and has a top-level alternation: every alternative is anchored at the current position
     add({"Root": [rule("^a|b"), rule("c"), rule("\\s+", True)]})
     add({"Root": [rule("\\Aa|c"), rule("(?m)^b|a"), rule("(?s).")]})
@@ -175,6 +180,11 @@ def curated_gen():
     add({"Root": [P(0, "(?s)a.b?"), P(1, "[^a]")]})
     # rule names whose first character is not ASCII (elision is decided from the name's first BYTE by the runtime lexer)
     add({"Root": [named("\u00e9sp", "a"), named("\u00c9up", "b"), named("\u6570", "c"), P(3, "(?s).")]})
+    # a + whose body can succeed with zero width ($ inside the repetition); a literal alternation that is not at the start of
+    # the pattern, reached at the end of the input
+    add({"Root": [P(0, "a+(?:\\s|$)+"), P(1, "(?s).")]})
+    add({"Root": [P(0, "a+(?:bc|cb|\\()?"), P(1, "(?s).")]})
+    add({"Root": [P(0, "c(?:ab|ba)"), P(1, "(?s).")]})
     # two pushing rules into different states (two live lexers of one definition must not share their state stacks)
     add({"Root": [P(0, "a", act="push", state="S1"), P(1, "b", act="push", state="S2"), P(2, "c")],
          "S1": [P(3, "c"), P(0, "a", act="push", state="S1"), P(4, "e", act="pop")],
